@@ -60,7 +60,7 @@ func init() {
 		Units:    []Unit{{Name: "pktsrc", Pkg: "./props/pktsrc", Sim: "c16", Share: 1}},
 		Rule:     "one evaluation = one run inside a testing/synctest bubble: a scripted data source (packets with capture info, timeouts, other transient errors, one of seven end-of-input errors, plain or wrapped; copying or buffer-reusing zero-copy), a consumer (pull or channel interface), a canceller and the clock are released one at a time by the tape-driven controller, which waits for the whole bubble (PacketSource's own goroutine included) to block durably after every step; non-trivial = a transient/terminal error or a cancellation fired; distinct = distinct event-log fingerprints among non-trivial runs",
 		RealStub: "real: gopacket.PacketSource (NextPacket, PacketsCtx, its background goroutine, channel, time.Sleep, context), NewPacket with DecodePayload; stub: data source, consumer, canceller; clock: synctest fake clock",
-		Assume:   []string{"Go's select among ready cases is not owned: the one packet whose read was in progress at cancellation may or may not be delivered, both are accepted", "the 1000-slot channel is never filled (runs have at most 300 steps)"}}
+		Assume:   []string{"Go's select among ready cases is not owned: the one packet whose read was in progress at cancellation may or may not be delivered, both are accepted", "a small share of runs fills all 1000 slots of the channel before anything is consumed"}}
 }
 
 func init() {
@@ -112,7 +112,7 @@ var probeNames = map[string][]string{
 	"c14pcap": {"exhaustive_cut_sweep", "libpcap_read_pcap"},
 	"c14ng":   {"exhaustive_cut_sweep", "libpcap_read_pcapng", "interface_with_timestamp_offset", "interface_added_between_packets", "secrets_block_between_packets", "statistics_block_between_packets"},
 	"c15":     {"short_reads_delivered"},
-	"c16":     {"retry_after_transient_error", "cancel_during_read", "zero_copy_nocopy_refused", "three_or_more_packets"},
+	"c16":     {"retry_after_transient_error", "cancel_during_read", "zero_copy_nocopy_refused", "three_or_more_packets", "channel_full_backpressure"},
 	"c20":     {"read_to_eof", "closed_early", "closed_between_batches", "closed_inside_a_batch"},
 	"c20asm":  {"read_to_eof", "closed_early", "real_assembler_run"},
 }
